@@ -177,7 +177,7 @@ def run(prop, tier):
     import itertools
     allpre = "{" + ", ".join(tlaset(c) for n in range(len(B) + 1) for c in itertools.combinations(B, n)) + "}"
     conc = dict(base, Procs="{1, 2}", MaxOps=1, MaxGen=6, PreSets=allpre)
-    r = vlib.run_tlc("Catalog", "cat_conc.cfg", cfg_text=vlib.cfg_text(conc, invariants=["C17"], view="View"), timeout=1500)
+    r = vlib.run_tlc("Catalog", "cat_conc.cfg", cfg_text=vlib.cfg_text(conc, invariants=["C17"], view="View"), timeout=3000, coverage=not quick)
     vlib.tlc_ok(r, "Catalog conc")
     res.tlc(r, "Catalog/2 processes, destroy under the root lock")
     if r["violated"]:
